@@ -39,6 +39,7 @@ def jobs(tier):
     out.append({"name": "tree-transfer", "kind": "transfer"})
     out.append({"name": "methods-and-item-defaults", "kind": "extras"})
     out.append({"name": "transient-env", "kind": "transient"})
+    out.append({"name": "old-config-late-field", "kind": "oldlate"})
     return out
 
 
@@ -436,8 +437,69 @@ def _transient_env(job, ctx):
     ctx.traces += 1
 
 
+def _old_config_late_field(job, ctx):
+    """a configuration built *before* a field with a mutable default joined the schema: whatever reading that field through the
+    old object gives (an error is fine), mutating what it gives in place changes neither the schema's declared default nor any
+    other configuration, built before or after"""
+    import cincoconfig as cc
+    only = job.get("only")
+    kinds = {"typed-list": lambda: cc.ListField(cc.IntField(), default=[1]), "untyped-list": lambda: cc.ListField(default=[1, [2]]),
+             "typed-dict": lambda: cc.DictField(cc.StringField(), cc.IntField(), default={"k": 1}), "untyped-dict": lambda: cc.DictField(default={"k": [1]}),
+             "factory-list": lambda: cc.ListField(cc.IntField(), default=lambda: [1])}
+    for kind, mk in kinds.items():
+        for where in ("root", "sub"):
+            ident = [kind, where]
+            if only is not None and only != ident:
+                continue
+            s = cc.Schema()
+            s.w = cc.IntField(default=1)
+            s.sub.w = cc.IntField(default=1)
+            old, old2 = s(), s()
+            target = s if where == "root" else s.sub
+            target.late = mk()
+            pristine = W.schema_snap(s)
+            first = s()
+            want = V.canon((first if where == "root" else first.sub).late)
+            case = {"kind": "oldlate", "jobparams_full": {k: v for k, v in job.items() if k not in ("single", "only")}, "only": ident, "job": job["name"]}
+            fp = "C13|old-config-late-field|%s|%s|" % (kind, where)
+            ctx.transitions += 1
+            holder = old if where == "root" else old.sub
+            try:
+                value = holder.late
+            except Exception:  # noqa
+                value = None
+            ctx.case(("oldlate", kind, where), "oldlate:%s" % type(value).__name__, True)
+            try:
+                if isinstance(value, list):
+                    value.append(99)
+                    if value and isinstance(value[1] if len(value) > 1 else None, list):
+                        value[1].append(98)
+                elif isinstance(value, dict):
+                    value["added"] = 99
+            except Exception:  # noqa
+                pass
+            later = s()
+            for name, cfg in (("a configuration built afterwards", later), ("another old configuration", old2), ("the first configuration built after the field was added", first)):
+                h = cfg if where == "root" else cfg.sub
+                try:
+                    got = V.canon(h.late)
+                except Exception:  # noqa
+                    continue       # (an old configuration may not know the field at all)
+                if got != want:
+                    ctx.violation(fp + "shared", "after an in-place change of what the old configuration returned for the late field, %s reads %s" % (name, V.show(h.late, 60)), case)
+            if W.schema_snap(s) != pristine:
+                ctx.violation(fp + "schema-changed", "the in-place change reached the schema's declared default", case)
+    ctx.states += 1
+    ctx.traces += 1
+
+
 def run_job(job, ctx):
     single = job.get("single")
+    if single and single.get("kind") == "oldlate":
+        j = dict(single["jobparams_full"]); j["only"] = single["only"]
+        return _old_config_late_field(j, ctx)
+    if job.get("kind") == "oldlate":
+        return _old_config_late_field(job, ctx)
     if single and single.get("kind") == "transient":
         j = dict(single["jobparams_full"]); j["only"] = single["only"]
         return _transient_env(j, ctx)
